@@ -210,8 +210,8 @@ func (s *Session) changeState(state LogonState, isEventTriggerRequired bool) {
 
 	s.stateMu.Lock()
 	s.state = state
-	if state == WaitingLogon || state == WaitingLogonAnswer {
-		// The session is logged out: its timers must not outlive it.
+	if state == WaitingLogon || state == WaitingLogonAnswer || state == WaitingLogoutAnswer {
+		// The session is logged out or logging out: its timers must not outlive it.
 		stopTimers, s.stopTimers = s.stopTimers, nil
 	}
 	s.stateMu.Unlock()
